@@ -81,6 +81,9 @@ let judge _name ins outs =
   | [t] when String.length t >= 5 && String.sub t 0 5 = "perr=" -> VOk false
   | t :: _ when String.length t >= 7 && String.sub t 0 7 = "badcase" -> VDisagree ("harness:" ^ t)
   | _ ->
+  if List.mem "STALL" outs then
+    VPropfail ("forwarding_not_blocked_by_logger",
+               "the-exchange-or-the-next-one-through-the-same-logger-did-not-finish-within-the-watchdog-limit") else
   if List.mem "PANIC" outs then VPropfail ("logger_error", "harness-level-panic") else
   let isreq = (match ins with "REQ" :: _ -> true | "RES" :: _ -> false | _ -> failwith "kind") in
   let srcfail = List.mem "srcfail=1" outs in
